@@ -257,7 +257,13 @@ def _gen_mode_m(unit):
         cuts.append(B.Cut(os.path.join(unit["crate_dir"], f), pth, raw, None, it.kind, hashlib.sha256(raw.encode()).hexdigest()))
     lib = os.path.join(dst, unit.get("lib", "src/lib.rs"))
     s = open(lib).read()
-    s = unit.get("crate_attrs", "") + "\n" + s + "\n\n#[cfg(kani)]\nmod vx_harness {\n    use super::*;\n" + unit["harness"] + "\n}\n"
+    extra = ""
+    if unit.get("items"):
+        # functions of OTHER crates that use this crate: extracted (rules R1-R4) into the appended module
+        body, cuts2 = B.assemble(unit["items"], "K", counter)
+        cuts += cuts2
+        extra = unit.get("prelude", "") + "\n// ======== extracted from /repo (rules R1-R4 applied) ========\n" + body
+    s = unit.get("crate_attrs", "") + "\n" + s + "\n\n#[cfg(kani)]\nmod vx_harness {\n    use super::*;\n" + extra + unit["harness"] + "\n}\n"
     open(lib, "w").write(s)
     counter.hit("M.append_harness_module")
     return dst, cuts, counter
